@@ -83,6 +83,7 @@ func (m *Module) OnBlock(w *engine.World, blk *engine.Block, res *abci.ResponseF
 func (m *Module) flushTap(w *engine.World) {
 	recs := m.tapPending
 	m.tapPending = nil
+	m.blockCbs = nil
 	for _, rec := range recs {
 		if rec.TxHash != "" {
 			if code, ok := m.txCodes[rec.TxHash]; ok && code != 0 {
@@ -90,6 +91,7 @@ func (m *Module) flushTap(w *engine.World) {
 			}
 		}
 		m.tapRecords = append(m.tapRecords, rec)
+		m.blockCbs = append(m.blockCbs, rec)
 		w.Hit("svc.tap_records")
 		for _, f := range m.tapSubs {
 			f(w, rec)
@@ -184,6 +186,7 @@ func (m *Module) OnCommit(w *engine.World) {
 		rc, found := live[id]
 		m.observeCtx(w, c, rc, found, charges, promo)
 	}
+	m.checkCallbacks(w)
 	m.checkEndBlock(w, ex, charges, promo)
 	m.checkEscrows(w)
 	m.checkMarkers(w)
@@ -356,12 +359,116 @@ func (m *Module) observeCtx(w *engine.World, c *rctx, rc svctypes.RequestContext
 		c.Clean = true
 		c.Resumed = false
 		m.loadBatch(w, c, charges, promo)
+		if c.Module != "" {
+			if c.cbBatches == nil {
+				c.cbBatches = map[uint64]*cbBatch{}
+			}
+			c.cbBatches[c.Batch] = &cbBatch{N: c.Batch, Exp: c.BatchExp, Thr: rc.BatchResponseThreshold, Reqs: c.lastLoaded}
+		}
 	case rc.BatchCounter > c.Batch+1 && c.Foreign && c.Batch == 0:
 		// adopted in the middle of its life
+		c.cbUnknown = true
 		c.Batch, c.BatchStart, c.BatchExp = rc.BatchCounter, h, h+c.Timeout
 	default:
 		w.Violate("C08", "schedule/batch-counter-jump", "context %s: batch counter went from %d to %d in block %d", c.ID, c.Batch, rc.BatchCounter, h)
+		c.cbUnknown = true
 		c.Batch = rc.BatchCounter
+	}
+}
+
+// checkCallbacks: "a registered module callback fires exactly once per batch, with the outputs
+// if and only if the response threshold was met". A batch of a module-owned context completes
+// inside the transaction that carries the last outstanding answer, or else in the end block
+// of its expiration height (a batch without requests only there). The tap (committed blocks
+// only, callbacks of failed transactions marked) says which response callbacks fired.
+func (m *Module) checkCallbacks(w *engine.World) {
+	h := w.Height
+	fired := map[string][]CallbackRecord{}
+	for _, rec := range m.blockCbs {
+		if rec.Kind == "response" && !rec.TxFailed {
+			fired[rec.ContextID] = append(fired[rec.ContextID], rec)
+		}
+	}
+	for _, id := range m.ctxOrd {
+		c := m.ctxs[id]
+		if c.Module == "" || c.cbClosed {
+			continue
+		}
+		if c.Removed {
+			c.cbClosed = true
+		}
+		var done []*cbBatch
+		var how []string
+		var ns []uint64
+		for n := range c.cbBatches {
+			ns = append(ns, n)
+		}
+		sort.Slice(ns, func(i, j int) bool { return ns[i] < ns[j] })
+		for _, n := range ns {
+			b := c.cbBatches[n]
+			if b.Done {
+				delete(c.cbBatches, n)
+				continue
+			}
+			all := len(b.Reqs) > 0
+			for _, rid := range b.Reqs {
+				all = all && m.reqs[rid] != nil && m.reqs[rid].State == reqAnswered
+			}
+			switch {
+			case all:
+				b.Done = true
+				done, how = append(done, b), append(how, "last-answer")
+			case b.Exp <= h:
+				b.Done = true
+				done, how = append(done, b), append(how, "expiry")
+			}
+		}
+		recs := fired[strings.ToUpper(id)]
+		if len(recs) == 0 {
+			recs = fired[strings.ToLower(id)]
+		}
+		if c.cbUnknown {
+			continue
+		}
+		w.Hit("C08.callback_checks")
+		if len(recs) != len(done) {
+			got := "none"
+			if len(recs) == 1 {
+				got = "one"
+			} else if len(recs) > 1 {
+				got = "several"
+			}
+			w.Violate("C08", fmt.Sprintf("callback/count/%d-completed/%s-fired/%s", len(done), got, strings.Join(how, "+")),
+				"%s-owned context %s: %d batch(es) completed in block %d (%v) but the module's response callback fired %d time(s) in it", c.Module, c.ID, len(done), h, how, len(recs))
+			continue
+		}
+		for i, b := range done {
+			rec := recs[i]
+			outs := 0
+			for _, rid := range b.Reqs {
+				if rq := m.reqs[rid]; rq != nil && rq.State == reqAnswered && rq.Output != "" {
+					outs++
+				}
+			}
+			met := outs >= int(b.Thr)
+			w.Hit("svc.callback_" + how[i])
+			if met {
+				w.Hit("svc.callback_threshold_met")
+			} else {
+				w.Hit("svc.callback_below_threshold")
+			}
+			switch {
+			case met && rec.Err != "":
+				w.Violate("C08", "callback/verdict/threshold-met-but-error/"+how[i], "%s-owned context %s batch %d completed in block %d with %d output(s), threshold %d: the callback was handed the error %q",
+					c.Module, c.ID, b.N, h, outs, b.Thr, rec.Err)
+			case !met && rec.Err == "":
+				w.Violate("C08", "callback/verdict/below-threshold-but-outputs/"+how[i], "%s-owned context %s batch %d completed in block %d with %d output(s), threshold %d: the callback was handed %d output(s) and no error",
+					c.Module, c.ID, b.N, h, outs, b.Thr, rec.Outputs)
+			case met && rec.Outputs != outs:
+				w.Violate("C08", "callback/outputs/"+how[i], "%s-owned context %s batch %d completed in block %d with %d output(s): the callback was handed %d",
+					c.Module, c.ID, b.N, h, outs, rec.Outputs)
+			}
+		}
 	}
 }
 
@@ -427,8 +534,10 @@ func (m *Module) loadBatch(w *engine.World, c *rctx, charges map[string]coins, p
 		}
 	}
 	w.Hit("svc.batches")
+	c.lastLoaded = nil
 	for i, q := range res.Requests {
 		id := strings.ToUpper(q.Id)
+		c.lastLoaded = append(c.lastLoaded, id)
 		if m.reqs[id] != nil {
 			w.Violate("C08", "request/id-reused", "request id %s issued twice", id)
 			continue
